@@ -99,7 +99,9 @@ def check_binding(run, fcp, sch, d, impl, unroll, text, values=None):
     exp = expected_options(d, sch)
     for v, (n, s, w, t, fname) in zip(got, want):
         ed = dict(v.extended_data or {})
-        if "::" not in n and fname in exp and n == fname:
+        # (a block is looked up by the field's own name: it reaches that field also where the field sits inside a
+        # nested struct)
+        if fname in exp and n.split("::")[-1] == fname:
             e_end, e_opts = exp[fname]
             if ed != e_opts or v.endianess != e_end:
                 case["leaf"] = n
